@@ -134,6 +134,21 @@ def permitted_end(ex, S, T, p):
     return False
 
 
+def inv_preserved(ex, S, T):
+    """the representation invariant every one-step obligation assumes of its pre-state holds again in the post-state (so it holds in
+    every reachable state: the obligations quantify over a superset of the reachable states, not over a set that misses some)"""
+    if getattr(S, 'concrete', False):
+        return []
+    shim = type('DBShim', (), {'schema': ex.xp.schema, 't': S.post})()
+    out = []
+    # stored publish stamps come from earlier clock readings: none lies in the future of this step
+    past = And(*[Implies(r.exists, r.v['published_at'] <= S.nows[0]) for e in ('Delivery', 'Message') for r in S.pre[e]]) if S.nows else True
+    for lbl, f in reldb.inv_formulas(ex, shim, S.post):
+        if f is not True and lbl != 'attempts-in-range':      # the upper bound on attempts is a modelling bound, not an invariant
+            out.append(('invariant-preserved:' + lbl, Implies(past, f)))
+    return out
+
+
 def c01_frame(ex, S, T):
     """nothing but a permitted terminator makes an outstanding delivery on a live subscription disappear"""
     out = []
